@@ -119,6 +119,9 @@ func fixed() []rtgen.CaseT {
 		{Script: items, Req: rtgen.ReqT{Method: "POST", Path: "/items/7"}, Prev: []rtgen.ReqT{{Method: "PATCH", Path: "/items/new"}}},
 		{Script: warm, Req: rtgen.ReqT{Method: G, Path: "/posts/2024/Hello_World"}, Warm: true, WarmupAt: 0},
 		{Script: warm, Req: rtgen.ReqT{Method: G, Path: "/posts/2024/hello-world"}, Warm: true, WarmupAt: 0},
+		mk([]rtgen.RegT{reg(G, "/t/:s", rtgen.ConsT{Name: "s", Kind: "enum", Arg: "open|closed|void"})}, G, "/t/opened", false),
+		mk([]rtgen.RegT{reg(G, "/t/:s", rtgen.ConsT{Name: "s", Kind: "enum", Arg: "open|closed|void"})}, "PUT", "/t/unclosed", false),
+		mk([]rtgen.RegT{reg(G, "/t/:s", rtgen.ConsT{Name: "s", Kind: "enum", Arg: "open|closed|void"})}, G, "/t/closed", false),
 		mk(k01e, G, "/f/abc/x", false), mk(k01e, G, "/f/12/x/y", false), mk(k01e, "POST", "/g/a/b", false), mk(k01e, "POST", "/g/a/7", false), mk(k01e, "PUT", "/g/a/7", false),
 		mk([]rtgen.RegT{reg(G, "/s/*"), reg(G, "/s/:x")}, G, "/s/1", false), mk([]rtgen.RegT{reg(G, "/s/*")}, G, "/s", false),
 	}
